@@ -52,7 +52,7 @@ func TestVF_C33(t *testing.T) {
 		"then for every r <= R and error kind {transient error, context deadline exceeded} a fresh compactor runs the cycle on a fresh copy of the state with the r-th sync read failing once; " +
 		"oracle: no mutating bucket operation (upload, delete) is applied after the failed read in that cycle; distinct = (state, r, kind); non-trivial = the fault was injected and the fault-free run " +
 		"performed destructive work after its r-th read")
-	nsets := r.N(3, 12)
+	nsets := r.N(3, 24)
 	r.Assume("production wiring is mirrored from cmd/thanos/compact.go: fetcher and marker filters are the only readers of the sync view; concurrency 1")
 	r.Assume("a not-found answer is not a read failure (it is indistinguishable from absence) and is not injected")
 	ctx := context.Background()
@@ -219,6 +219,10 @@ func TestVF_C33L(t *testing.T) {
 			t.Fatalf("rig: %v", err)
 		}
 	}
+	// object stores answer with different latencies: successful exists calls take 0..600 microseconds, a pure function of the operation number
+	core.mu.Lock()
+	core.jitter = func(op vfcfbOp) time.Duration { return time.Duration(op.Seq%4) * 200 * time.Microsecond }
+	core.mu.Unlock()
 	for i := 0; i < n; i++ {
 		if !r.Want(i) {
 			continue
